@@ -144,7 +144,7 @@ check(
 check(
     "C07",
     "other",
-    "bounded symbolic verification of the coordinator's scheduling kernel: the scheduling loop extracted from build.process_graph and the real BuildManager.submit/submit_to_workers/get_scc_batch/max_batch_size/wait_for_done/wait_for_done_workers run on a shell manager with stubbed transport; the solver chooses the SCC DAG (3/4 SCCs), the size hints, the number of workers (1..3) and, at every wait, which busy workers' responses arrive, and for every ready wave which SCCs find_stale_sccs reports fresh (mixed fresh/stale waves). For every schedule: an SCC is sent only after its dependencies reported interface-done, every SCC is sent exactly once, a worker gets a batch only after its implementation response, the loop terminates with everything done, bookkeeping stays in range. Worker side (W1): the real maybe_load_deps + State.reload_meta on solver-chosen DAGs, already-loaded sets and broadcast interface hashes - every dependency SCC is loaded once in order and carries the interface hash that is in the cache now; (W2) process_stale_scc_interface/_implementation with a recording store - every written record is committed before the next module is written and before the function returns. Equality of diagnostics with the sequential build is not claimed (needs real workers).",
+    "bounded symbolic verification of the coordinator's scheduling kernel: the scheduling loop extracted from build.process_graph and the real BuildManager.submit/submit_to_workers/get_scc_batch/max_batch_size/wait_for_done/wait_for_done_workers run on a shell manager with stubbed transport; the solver chooses the SCC DAG (3/4 SCCs), the size hints, the number of workers (1..3) and, at every wait, which busy workers' responses arrive, and for every ready wave which SCCs find_stale_sccs reports fresh (mixed fresh/stale waves). For every schedule: an SCC is sent only after its dependencies reported interface-done, every SCC is sent exactly once, a worker gets a batch only after its implementation response, the loop terminates with everything done, bookkeeping stays in range. Worker side (W1): the real maybe_load_deps + State.reload_meta on solver-chosen DAGs, already-loaded sets and broadcast interface hashes - every dependency SCC is loaded once in order and carries the interface hash that is in the cache now; (W2) process_stale_scc_interface/_implementation with a recording store - every written record is committed before the next module is written and before the function returns. (W3) generated classes through the real front end: every function enclosing the first assignment to a member of self carries def_or_infer_vars (the interface phase visits only flagged functions). Equality of diagnostics with the sequential build is not claimed (needs real workers).",
     "trusted: z3; stubs for send/ready_to_read/receive/response decoding; find_stale_sccs replaced by a solver-chosen split; workers answer each batch with one interface and one implementation response",
     "symbolic execution of real Python source with z3 (decision-replay) over all completion orders within the bound, partitioned over processes",
     "DESIGN.md 4/C07",
